@@ -1688,9 +1688,9 @@ impl<'comments> Formatter<'comments> {
                         .group()
                 }
 
-                _ => self.expr(fun, false).append(
-                    wrap_args(args.iter().map(|a| (self.call_arg(a, false), false))).group(),
-                ),
+                // NOTE: a record constructor applied with labels and a hole, e.g. `Foo { i: _, b: True }`,
+                // must keep its curly braces: `Foo(i: _, b: True)` isn't valid syntax.
+                _ => self.call(fun, args),
             },
 
             // The body of a capture being not a fn shouldn't be possible...
